@@ -1395,16 +1395,6 @@ class Covout:
         self.sigma = uncertainty
         self.baseline = baseline
 
-        # Parse the interactions into a numeric representation
-        self._interactions = dict()
-        if self.imp_interaction and not self.imp_interaction.lower() in ["best", "synergistic"]:
-            for interaction in self.imp_interaction.split(","):
-                combo, val = interaction.split("=")
-                combo = frozenset([x.strip() for x in combo.split("+")])
-                for x in combo:
-                    assert x in self.progs, 'The impact interaction refers to a program "%s" which does not appear in the available programs' % (x)
-                self._interactions[combo] = float(val) - self.baseline
-
         self.update_outcomes()
 
     @property
@@ -1454,6 +1444,16 @@ class Covout:
         3. Pre-compute the outcomes associated with every possible combination of programs
 
         """
+
+        # Parse the interactions into a numeric representation (relative to the current baseline)
+        self._interactions = dict()
+        if self.imp_interaction and not self.imp_interaction.lower() in ["best", "synergistic"]:
+            for interaction in self.imp_interaction.split(","):
+                combo, val = interaction.split("=")
+                combo = frozenset([x.strip() for x in combo.split("+")])
+                for x in combo:
+                    assert x in self.progs, 'The impact interaction refers to a program "%s" which does not appear in the available programs' % (x)
+                self._interactions[combo] = float(val) - self.baseline
 
         # First, sort the program dict by the magnitude of the outcome
         prog_tuple = [(k, v) for k, v in self.progs.items()]
